@@ -11,6 +11,9 @@ pub enum Case {
     ReadBack { nuni: usize, x: NumSpec },
     /// manifold(f*g)[i] = manifold(f)[i]*g + f*manifold(g)[i] for every requested list
     Product { nuni: usize, f: NumSpec, g: NumSpec },
+    /// history independence: for every requested list, ask it of every layout in turn, each number built
+    /// fresh and dropped before the next one (so that remembered look-ups meet re-used storage)
+    SameListSequence { nuni: usize },
 }
 
 fn gval(name: usize, side: usize) -> f64 {
@@ -55,11 +58,14 @@ fn operands(nuni: usize, v: f64, side: usize, hess_only: bool) -> Vec<NumSpec> {
 }
 
 fn cases(tier: Tier) -> Vec<Case> {
-    let nuni = tier.pick(3, 4);
+    let nuni = 4;
+    let _ = tier;
     let mut out = vec![];
     for x in operands(nuni, 1.5, 0, false) {
         out.push(Case::ReadBack { nuni, x });
     }
+    // the same requested list put to many freshly built numbers in a row (one thread, numbers dropped in between)
+    out.push(Case::SameListSequence { nuni: 3 });
     let pn = 3;
     let fs = operands(pn, 1.5, 0, true);
     let gs = operands(pn, -2.5, 1, true);
@@ -184,6 +190,53 @@ pub fn check(case: &Case, idx: u64, acc: &mut Acc) {
                 acc.sample(cj);
             }
         }
+        Case::SameListSequence { nuni } => {
+            let u = universe(*nuni);
+            let ops = operands(*nuni, 1.5, 0, true);
+            for list in ordered_sublists(nuni + 1) {
+                if list.is_empty() {
+                    continue;
+                }
+                let req: Vec<String> = list.iter().map(|i| sym(*nuni, *i, &u)).collect();
+                for x in ops.iter() {
+                    acc.evals_add(3);
+                    acc.nontrivial();
+                    let want1: Vec<f64> = list.iter().map(|i| deriv1(x, *i)).collect();
+                    {
+                        let d1 = x.dual(&u);
+                        let g = d1.gradient1(req.clone()).to_vec();
+                        if g != want1 {
+                            acc.violate("after-other-requests/gradient1/Dual", idx, cj(), json!({"number": x, "list": req, "want": want1}), json!(g));
+                        }
+                    }
+                    {
+                        let d2 = x.dual2(&u);
+                        let g = d2.gradient1(req.clone()).to_vec();
+                        if g != want1 {
+                            acc.violate("after-other-requests/gradient1/Dual2", idx, cj(), json!({"number": x, "list": req, "want": want1}), json!(g));
+                        }
+                    }
+                    {
+                        let d2 = x.dual2(&u);
+                        let h = d2.gradient2(req.clone());
+                        let mut bad = h.shape() != [list.len(), list.len()];
+                        if !bad {
+                            for (i, a) in list.iter().enumerate() {
+                                for (j, b) in list.iter().enumerate() {
+                                    if h[[i, j]] != deriv2(x, *a, *b) {
+                                        bad = true;
+                                    }
+                                }
+                            }
+                        }
+                        if bad {
+                            acc.violate("after-other-requests/gradient2", idx, cj(), json!({"number": x, "list": req}), json!(format!("{:?}", h)));
+                        }
+                    }
+                }
+            }
+            acc.sample(cj);
+        }
         Case::Product { nuni, f, g } => {
             let u = universe(*nuni);
             let (df, dg) = (f.dual2(&u), g.dual2(&u));
@@ -247,8 +300,9 @@ pub fn run(ctx: &Ctx, replay_file: Option<String>) -> ! {
          (incl. exactly-the-stored-list, its permutations, sub/supersets). gradient1 (Dual, Dual2), gradient2 and \
          gradient1_manifold are compared entry by entry, exactly, with the by-name derivative (0 for absent). Product \
          identity manifold(f*g)[i] = manifold(f)[i]*g + f*manifold(g)[i] for every pair of a 3-name pool with full \
-         Hessians and every requested list. Non-trivial: requests that differ from the stored list.",
-        json!({"names": ctx.tier.pick(3, 4), "requested_lists": ordered_sublists(ctx.tier.pick(3, 4) + 1).len(), "cases": cs.len()}),
+         Hessians and every requested list. History independence: every requested list put, in a row on one thread, to \
+         every layout of a 3-name pool, each number built fresh and dropped before the next. Non-trivial: requests that differ from the stored list.",
+        json!({"names": 4, "requested_lists": ordered_sublists(5).len(), "cases": cs.len()}),
     )
     .assume("derivative values come from a fixed generic table; orders/subsets are exhaustive");
     finish(ctx, acc, meta)
